@@ -128,11 +128,15 @@ def generate(seed, tier):
         # IRIs for which the serialisers have to generate a prefix; a local name that ends in "." cannot be written as prefix:local
         subs = subs + [u("ns#"), u("v/item")]
         preds = preds + [u("ns#a."), u("v/rel")]
+    userprefix = g.chance(0.2)
+    if userprefix:
+        # a namespace for which rdflib has a default prefix (schema:), bound by the user to a prefix of their own
+        preds = preds + [["u", "https://schema.org/name"]]
     quads = []
     for _ in range(g.randint(2, 12)):
         gr = None if kind == "graph" else g.choice([None, None, 0, 1, 2])
         quads.append([g.pick(subs), g.pick(preds), g.pick(objs), gr])
-    cfg = {"kind": kind, "names": names, "quads": quads, "list": g.chance(0.5), "empty_graph": g.chance(0.5) and kind != "graph", "remove_one": g.chance(0.3), "subscriber": g.chance(0.15)}
+    cfg = {"kind": kind, "names": names, "quads": quads, "list": g.chance(0.5), "empty_graph": g.chance(0.5) and kind != "graph", "remove_one": g.chance(0.3), "subscriber": g.chance(0.15), "userprefix": userprefix}
     ops = []
     nlazy = 0
     live = []
@@ -249,6 +253,9 @@ def execute(trace, ctx):
     if cfg["remove_one"] and cfg["quads"]:
         s, p, o, gi = cfg["quads"][0]
         Graph(store, gid(gi)).remove((T(s), T(p), T(o)))
+    if cfg.get("userprefix"):
+        top.bind("mine", URIRef("https://schema.org/"))
+        ctx.probe("user-prefix-for-a-namespace-with-a-default-prefix")
     if kind.startswith("dataset"):
         list(top.graphs())  # prime: graphs() registers the default graph (documented get-or-create); not part of the judged schedule
     if any(q[3] == 1 for q in cfg["quads"]):
